@@ -502,6 +502,7 @@ func (ex *Exec) paramVars() map[string]SV {
 	vars := map[string]SV{}
 	for i, p := range ex.fn.Params {
 		vars[p.Name()] = SV{ex.params[i], p.Type()}
+		vars[p.Name()+"0"] = SV{ex.params[i], p.Type()} // entry value (parameters may be reassigned in the body)
 	}
 	for i, fv := range ex.fn.FreeVars {
 		if i < len(ex.freeVars) {
@@ -517,9 +518,6 @@ func (ex *Exec) specCtx(vars map[string]SV, heap *Heap) *SpecCtx {
 
 func (ex *Exec) enterLoop(b *ssa.BasicBlock, l *Loop, conds []Term, heaps []*Heap, predIdx []int, reach Term) *Heap {
 	q := ex.q
-	if ex.depth > 0 {
-		unsupported("loop inside inlined function %s", ex.fn.Name())
-	}
 	spec := ex.loopClauses(l)
 	// 1. invariants hold on entry
 	if spec != nil {
